@@ -1110,7 +1110,7 @@ func (ex *Exec) siteRecv(fr *Frame, st *State, ch *Term, pos token.Pos) {
 		ex.sitesHit[fmt.Sprintf("spec:%s#%d", s.Callee, s.Occ)] = true
 		env := ex.localEnv(fr, st)
 		env["ch"] = SV{V: TV{ch}}
-		ctx := &EvalCtx{ex: ex, st: st, old: ex.entry, env: env, pkg: ex.contract.Pkg, fnPos: ex.fn.Pos()}
+		ctx := &EvalCtx{ex: ex, st: st, old: ex.entry, env: env, oldEnv: ex.entryEnv, pkg: ex.contract.Pkg, fnPos: ex.fn.Pos()}
 		for i, a := range s.Assert {
 			c, err := ctx.evalBool(a.Expr)
 			if err != nil {
@@ -1148,7 +1148,7 @@ func (ex *Exec) enterLoop(fr *Frame, li *loopInfo, st *State) {
 	spec := ex.loopSpec(fr, li)
 	if spec != nil {
 		env := ex.localEnv(fr, st)
-		ctx := &EvalCtx{ex: ex, st: st, old: ex.entry, env: env, pkg: ex.contract.Pkg, fnPos: ex.fn.Pos()}
+		ctx := &EvalCtx{ex: ex, st: st, old: ex.entry, env: env, oldEnv: ex.entryEnv, pkg: ex.contract.Pkg, fnPos: ex.fn.Pos()}
 		for i, inv := range spec.Invariants {
 			c, err := ctx.evalBool(inv.Expr)
 			if err != nil {
@@ -1249,7 +1249,7 @@ func (ex *Exec) enterLoop(fr *Frame, li *loopInfo, st *State) {
 	fr.loopSt[li.head] = ls
 	if spec != nil {
 		env := ex.localEnv(fr, st)
-		ctx := &EvalCtx{ex: ex, st: st, old: ex.entry, env: env, pkg: ex.contract.Pkg, fnPos: ex.fn.Pos()}
+		ctx := &EvalCtx{ex: ex, st: st, old: ex.entry, env: env, oldEnv: ex.entryEnv, pkg: ex.contract.Pkg, fnPos: ex.fn.Pos()}
 		for _, inv := range spec.Invariants {
 			c, err := ctx.evalBool(inv.Expr)
 			if err == nil {
@@ -1376,7 +1376,7 @@ func (ex *Exec) backEdge(fr *Frame, li *loopInfo, st *State) {
 	pos := li.head.Instrs[0].Pos()
 	if spec := ex.loopSpec(fr, li); spec != nil {
 		env := ex.localEnv(fr, st)
-		ctx := &EvalCtx{ex: ex, st: st, old: ex.entry, env: env, pkg: ex.contract.Pkg, fnPos: ex.fn.Pos()}
+		ctx := &EvalCtx{ex: ex, st: st, old: ex.entry, env: env, oldEnv: ex.entryEnv, pkg: ex.contract.Pkg, fnPos: ex.fn.Pos()}
 		for i, inv := range spec.Invariants {
 			c, err := ctx.evalBool(inv.Expr)
 			if err != nil {
